@@ -46,7 +46,7 @@ func New(prop, tier string, seed int64, shard, nshards int, outDir string, resum
 		Counters: map[string]int64{}, ViolCounts: map[string]int64{}, Extras: map[string]any{}, Floors: map[string]int64{}}
 	c.sigs = map[uint64]struct{}{}
 	c.sets = map[string]map[string]struct{}{}
-	c.maxViol = 40
+	c.maxViol = 600
 	_ = os.MkdirAll(outDir, 0o755)
 	f, err := os.OpenFile(filepath.Join(outDir, fmt.Sprintf("wal-%d.log", shard)), os.O_CREATE|os.O_WRONLY|os.O_APPEND, 0o644)
 	if err == nil {
